@@ -412,7 +412,7 @@ def kw_actionx(draw, m, body_kinds=None):
     mm = m.clone()
     qkind = "none"
     for _ in range(draw(st.integers(1, 3))):
-        kind = draw(st.sampled_from(body_kinds or ACTION_BODY))
+        kind = draw(st.sampled_from(body_kinds or getattr(m, "action_body", None) or ACTION_BODY))
         t = draw(gen_kw(mm, kind))
         if not t:
             continue
